@@ -52,10 +52,16 @@ def module_src(name, decls, std, err, qualified):
         attrs.append("ErrorCommands")
     lines.append("#[scpi::interface(%s)]" % ", ".join(attrs) if attrs else "#[scpi::interface]")
     lines.append("impl I {")
+    # ordinary methods without #[scpi] sit between the handlers, as in real interfaces
+    lines.append("    #[allow(dead_code)]")
+    lines.append("    fn helper_first(&self) -> u8 { 1 }")
     for i, d in enumerate(decls):
         asyn = "async " if i % 2 == 1 else ""
         lines.append('    #[scpi(cmd = "%s")]' % d)
         lines.append('    %sfn h%d(&mut self) -> Result<(), Error> { log::push(K::Enter, b"%d"); Ok(()) }' % (asyn, i, i))
+        if i % 2 == 0:
+            lines.append("    #[allow(dead_code)]")
+            lines.append("    fn helper_after_%d(&self) -> u8 { %d }" % (i, i))
     lines.append("}")
     lines.append("#[allow(dead_code)]")
     lines.append("fn exec(input: &[u8]) {")
